@@ -77,14 +77,36 @@ def _rec_cfg(max_extra, max_ops):
             "INIT Init\nNEXT Next\nINVARIANT Frame\nINVARIANT Placement\nINVARIANT UidsUnique\nINVARIANT EmitLayout\nCHECK_DEADLOCK FALSE\n")
 
 
-def _run(name, cfgtext, out, workers):
-    d = core.scratch("c03-" + name)
-    cfg = d / f"Stream_{name}.cfg"
-    cfg.write_text(cfgtext)
-    try:
-        out[name] = core.run_tlc(SPEC / "Stream.tla", cfg, workers=workers, timeout=3000, heap="3g")
-    finally:
-        shutil.rmtree(d, ignore_errors=True)
+def _run(name, cfgtext, out, workers, sem, quota, seed):
+    """one TLC profile; its cases are extracted (and, above `quota`, sampled by the seed) here and TLC's output is
+    dropped so that the thorough tier does not hold every emitted sequence of every profile in memory"""
+    with sem:
+        d = core.scratch("c03-" + name)
+        cfg = d / f"Stream_{name}.cfg"
+        cfg.write_text(cfgtext)
+        try:
+            res = core.run_tlc(SPEC / "Stream.tla", cfg, workers=workers, timeout=3000, heap="3g")
+        finally:
+            shutil.rmtree(d, ignore_errors=True)
+        cases = []
+        if name == "rec":
+            seen = set()
+            for tag, c in res.prints:
+                key = (tuple(c["kinds"]), c["edit"]) if tag == "LAYOUT" else None
+                if key and key not in seen:
+                    seen.add(key)
+                    cases.append(c)
+        else:
+            for tag, c in res.prints:
+                if tag == "TEXT":
+                    c["profile"] = name
+                    cases.append(c)
+        emitted = len(cases)
+        if name != "rec" and len(cases) > quota:
+            cases = random.Random(seed * 7919 + len(name)).sample(cases, quota)
+        res.prints = []
+        res.out = ""
+        out[name] = (res, cases, emitted)
 
 
 def _tlc_all(tier, seed, v):
@@ -98,38 +120,40 @@ def _tlc_all(tier, seed, v):
         plan[name] = _text_cfg(prefix, classes, lq if tier == "quick" else lt, last)
     plan["rec"] = _rec_cfg(2, 1 if tier == "quick" else 2)
     out: dict = {}
-    ths = [threading.Thread(target=_run, args=(n, c, out, 3 if n != "rec" else 6)) for n, c in plan.items()]
+    sem = threading.Semaphore(11 if tier == "quick" else 4)
+    quota = _n_text(tier) // 3
+    ths = [threading.Thread(target=_run, args=(n, c, out, 3 if n != "rec" else 6, sem, quota, seed)) for n, c in plan.items()]
     for t in ths:
         t.start()
-        time.sleep(0.05)  # core.scratch names the TLC metadir by pid + millisecond: keep the starts apart
     for t in ths:
         t.join()
     texts, layouts, stats = [], [], {}
+    emitted = 0
     for n in plan:
-        res = out[n]
+        if n not in out:
+            raise core.MachineryError(f"Stream.tla profile {n}: TLC run failed to return")
+        res, cases, nem = out[n]
         core.require_ok(res, f"Stream.tla profile {n}")
         if res.violated:
             raise core.MachineryError(f"Stream.tla profile {n}: design-level invariant {res.violated} violated:\n" + "\n".join(res.trace[-2:])[:3000])
         if n == "rec":
             core.require_actions(res, [("DoVary", "Vary"), ("DoStartEdit", "StartEdit"), ("DoOp", "Op")], "Stream.tla rec")
-            seen = set()
-            for tag, c in res.prints:
-                key = (tuple(c["kinds"]), c["edit"]) if tag == "LAYOUT" else None
-                if key and key not in seen:
-                    seen.add(key)
-                    layouts.append(c)
+            layouts = cases
         else:
             core.require_actions(res, [("DoDollar", "DoBlank", "DoNewline", "DoOther", "AppendTok")], f"Stream.tla {n}")
-            for tag, c in res.prints:
-                if tag == "TEXT":
-                    c["profile"] = n
-                    texts.append(c)
+            texts.extend(cases)
+            emitted += nem
         core.tlc_stats_into(v, res)
-        stats[n] = {"states": res.distinct, "wall_s": round(res.wall, 1)}
+        stats[n] = {"states": res.distinct, "cases": nem, "wall_s": round(res.wall, 1)}
     if not texts or not layouts:
         raise core.MachineryError("Stream.tla emitted no cases")
-    v.add_coverage(tlc_profiles=stats)
+    v.add_coverage(tlc_profiles=stats, token_sequences_emitted=emitted)
     return texts, layouts
+
+
+def _n_text(tier):
+    scale = float(os.environ.get("VERIF_BUDGET_SCALE", "1"))  # < 1 only for fast mutant screening
+    return int({"quick": 60000, "thorough": 400000}[tier] * scale)
 
 
 # ----------------------------------------------------------------------------- (a) text level
@@ -590,7 +614,7 @@ def main(tier: str, seed: int) -> int:
 
     rng = random.Random(seed)
     scale = float(os.environ.get("VERIF_BUDGET_SCALE", "1"))  # < 1 only for fast mutant screening
-    n_text = int({"quick": 60000, "thorough": 1200000}[tier] * scale)
+    n_text = _n_text(tier)
     if len(texts) > n_text:
         texts = rng.sample(texts, n_text)
     rtexts = _c04_record_texts(tier, seed)
@@ -626,7 +650,7 @@ def main(tier: str, seed: int) -> int:
     acc = validate_traces(traces, v)
     samples += [{"edit": t["edit"], "old": t["old"][:6], "new": t["new"][:6]} for _, t in traces[:3]]
     v.add_coverage(
-        token_sequences_emitted=len(texts), record_texts=len(rtexts), layouts_x_edits_emitted=len(layouts),
+        token_sequences_replayed=len(texts), record_texts=len(rtexts), layouts_x_edits_emitted=len(layouts),
         corpus_models=len(corpus_files()), evaluations=len(work), distinct_nontrivial=n_ok_text + len(traces),
         traces_validated_against_impl=acc + n_ok_text, record_traces_accepted_by_tlc=acc, record_traces=len(traces),
         outcome_counts=dict(sorted(counts.items())),
